@@ -138,6 +138,34 @@ var flavorForest = &item{"flavor-forest", []string{
 	`(defflavor fu3 ((u 3)) () :gettable-instance-variables)`},
 	[]string{`(send (make-instance 'fm3) :a)`, `(send (make-instance 'fm3) :c)`, `(send (make-instance 'fu2) :u)`}}
 
+// chainItems: a chain of three flavors and a chain of three classes whose names take every order relative to the
+// inheritance order (the snapshot writer sorts by name and must still write every ancestor before its descendants;
+// with base < middle < leaf names a name sort happens to be an inheritance order). Sessions of their own.
+var chainItems = func() (out []*item) {
+	names := []string{"alpha", "mu", "zeta"}
+	perms := [][3]int{{0, 1, 2}, {0, 2, 1}, {1, 0, 2}, {1, 2, 0}, {2, 0, 1}, {2, 1, 0}}
+	for _, pm := range perms {
+		base, mid, leaf := names[pm[0]], names[pm[1]], names[pm[2]]
+		tag := base + "-" + mid + "-" + leaf
+		fb, fm, fl := "chf-"+base, "chf-"+mid, "chf-"+leaf
+		out = append(out, &item{"chain-flavors:" + tag, []string{
+			"(defflavor " + fb + " ((a 1)) () :gettable-instance-variables)",
+			"(defflavor " + fm + " ((b 2)) (" + fb + ") :gettable-instance-variables)",
+			"(defflavor " + fl + " ((c 3)) (" + fm + ") :gettable-instance-variables)",
+			"(defmethod (" + fb + " :sum) (n) (+ a n))"},
+			[]string{"(send (make-instance '" + fl + ") :a)", "(send (make-instance '" + fl + ") :b)", "(send (make-instance '" + fl + ") :sum 4)",
+				"(send (make-instance '" + fm + ") :a)"}})
+		cb, cm, cl := "chc-"+base, "chc-"+mid, "chc-"+leaf
+		out = append(out, &item{"chain-classes:" + tag, []string{
+			"(defclass " + cb + " () ((s1 :initarg :s1 :initform 1)))",
+			"(defclass " + cm + " (" + cb + ") ((s2 :initform 2)))",
+			"(defclass " + cl + " (" + cm + ") ((s3 :initform 3)))"},
+			[]string{"(slot-value (make-instance '" + cl + ") 's1)", "(slot-value (make-instance '" + cl + " :s1 9) 's1)",
+				"(slot-value (make-instance '" + cl + ") 's3)", "(slot-value (make-instance '" + cm + ") 's2)"}})
+	}
+	return
+}()
+
 func init() {
 	for _, it := range items {
 		menu = append(menu, it.id)
@@ -162,6 +190,11 @@ func itemByID(id string) *item {
 	}
 	if id == flavorForest.id {
 		return flavorForest
+	}
+	for _, it := range chainItems {
+		if it.id == id {
+			return it
+		}
 	}
 	return nil
 }
@@ -228,6 +261,9 @@ func enumerateSnap(tier string, emit func(string)) {
 	out(append(append([]string(nil), menu...), redefMenu...))
 	out([]string{forwardRef.id})
 	out([]string{flavorForest.id})
+	for _, it := range chainItems {
+		out([]string{it.id})
+	}
 }
 
 // ------------------------------------------------------------------ stages
